@@ -77,3 +77,62 @@ def rename_locals_copy(repo: str) -> tuple:
         with open(os.path.join(dst, fn), "w") as fh:
             fh.write(out)
     return tmp, total
+
+
+class _Annotator(ast.NodeTransformer):
+    """`x = v` -> `x: object = v` for the first plain single-target assignment of each local (top-level statements of the
+    function body and of its compound statements; not inside nested functions)."""
+    def __init__(self, names: Set[str]) -> None:
+        self.names = set(names)
+        self.count = 0
+
+    def visit_FunctionDef(self, n: ast.FunctionDef) -> ast.AST:
+        return n  # nested functions are handled as their own unit (or left alone)
+
+    visit_AsyncFunctionDef = visit_FunctionDef  # type: ignore[assignment]
+    visit_Lambda = visit_FunctionDef  # type: ignore[assignment]
+
+    def visit_Assign(self, n: ast.Assign) -> ast.AST:
+        if len(n.targets) == 1 and isinstance(n.targets[0], ast.Name) and n.targets[0].id in self.names:
+            self.names.discard(n.targets[0].id)
+            self.count += 1
+            new = ast.AnnAssign(target=n.targets[0], annotation=ast.Name(id="object", ctx=ast.Load()), value=n.value, simple=1)
+            return ast.copy_location(new, n)
+        return n
+
+
+def annotate_locals_copy(repo: str) -> tuple:
+    """Write a copy of src/datashard in which local assignments carry a (vacuous) type annotation; returns (tmp, #annotated)."""
+    src = os.path.join(repo, "src", "datashard")
+    tmp = tempfile.mkdtemp(prefix="sa_annot_")
+    dst = os.path.join(tmp, "src", "datashard")
+    os.makedirs(dst)
+    total = 0
+    for fn in sorted(os.listdir(src)):
+        if not fn.endswith(".py"):
+            continue
+        with open(os.path.join(src, fn)) as fh:
+            tree = ast.parse(fh.read())
+        tops = [n for n in tree.body if isinstance(n, (ast.FunctionDef, ast.AsyncFunctionDef))]
+        for c in [n for n in tree.body if isinstance(n, ast.ClassDef)]:
+            tops += [n for n in c.body if isinstance(n, (ast.FunctionDef, ast.AsyncFunctionDef))]
+        for f in tops:
+            # a name may be annotated only if it is not used in a nested scope as nonlocal and is assigned before any use;
+            # keep to names whose FIRST occurrence in source order is a plain assignment statement
+            names = _locals_of(f)
+            first = {}
+            for n in ast.walk(f):
+                if isinstance(n, ast.Name) and n.id in names:
+                    key = (n.lineno, n.col_offset)
+                    if n.id not in first or key < first[n.id][0]:
+                        first[n.id] = (key, isinstance(n.ctx, ast.Store))
+            ok = {nm for nm, (_k, st) in first.items() if st}
+            an = _Annotator(ok)
+            f.body = [an.visit(st) if not isinstance(st, (ast.FunctionDef, ast.AsyncFunctionDef)) else st for st in f.body]
+            total += an.count
+        ast.fix_missing_locations(tree)
+        out = ast.unparse(tree) + "\n"
+        compile(out, fn, "exec")
+        with open(os.path.join(dst, fn), "w") as fh:
+            fh.write(out)
+    return tmp, total
